@@ -2,6 +2,7 @@
 import cm_rules as M
 import cowrite
 import generic_lints
+import predicates
 
 
 def run(facts, tier):
@@ -12,6 +13,7 @@ def run(facts, tier):
         ("merge", M.merge_rules, 3, "self merge refused; configuration (incl. full seed) compared; cell-wise sum; totals added"),
         ("configuration guard", M.config_guard, 1, "size limit evaluated without 32-bit wrap-around"),
         ("couplings", lambda fa: cowrite.obligations(fa, ['count_min_sketch']), 4, "fields that every mutator updates together (counters, extremes, cached values) are still updated together"),
+        ("emptiness predicate support", lambda fa: predicates.obligations(fa, ['count_min_sketch']), 1, "the emptiness predicate still consults every field it depended on in the reviewed tree (spec/predicates.json)"),
         ("tautologies", lambda fa: generic_lints.tautologies(fa, ('count/',)), 2, "no comparison / assignment / min-max with two identical operands, no if-else with identical arms"),
         ("duplicate operands", lambda fa: generic_lints.duplicate_conjuncts(fa, ('count/',)), 2, "no logical chain tests the same operand twice (copy-paste of the wrong peer)"),
         ("forwarding peers", lambda fa: generic_lints.forwarding_peers(fa, ('count/',)), 8, "one-statement typed overloads forward to an overload of their own name, never to the head of a sibling family (wrong peer)"),
